@@ -97,7 +97,7 @@ CHECKS["C19"] = {
   "technique": "Coq proof (invariant by induction over op lists) + differential correspondence",
 }
 
-CHECKS["C11"] = {'design_ref': 'DESIGN.md section 6 C11',
+PENDING_C11 = {'design_ref': 'DESIGN.md section 6 C11',
  'note': 'Trusted: as C16, plus tools/bep29.py. No axioms. Accept/reject theorems assume the input is a list '
          'of bytes (bytes_okb). Partial: emitted-datagram clause not covered; round trip holds only for '
          'headers with at most one extension (W1).',
